@@ -46,18 +46,18 @@ CLAIMED["C20"] = dict(
 
 VMTXT = "the interpreter loop of VM.ExecutionContext.__Execute is sliced mechanically into prologue / loop-step / epilogue functions on every run and the step is executed on symbolic operand values"
 CLAIMED["C01"] = dict(
-    text="Proof of component contracts: (1) " + VMTXT + " for every scalar opcode x operand kind against the reference semantics IRsem (truncating integer division, 0/1 comparisons and logical operators, fresh zero-initialised locals re-created per execution, loads/stores per scope, branches, return) with a full frame condition; (2) CFG-schema simulation of the real lowering handlers for if/else, while, do, for (all init/cond/next combinations), blocks, return, break, continue, nested and sequential loops on nodes with opaque children: the path set of the emitted blocks equals the structured source semantics (break leaves, continue re-tests, for-increment runs on continue, innermost loop); (3) straight-line emission contracts for binary/assignment/name/affix/declaration/cast/call/literal expressions, opcode map, type adaptation, argument index rewrite, compound-assignment rewrite and every relevant grammar action; (4) pipeline wiring. Grouping by precedence is C08, typing C09.",
+    text="Proof of component contracts: (1) " + VMTXT + " for every scalar opcode x operand kind against the reference semantics IRsem (truncating integer division, 0/1 comparisons and logical operators, fresh zero-initialised locals re-created per execution, loads/stores per scope, branches, return) with a full frame condition; (2) CFG-schema simulation of the real lowering handlers for if/else, while, do, for (all init/cond/next combinations), blocks, return, break, continue, nested and sequential loops on nodes with opaque children: the path set of the emitted blocks equals the structured source semantics (break leaves, continue re-tests, for-increment runs on continue, innermost loop); (3) straight-line emission contracts for binary/assignment/name/affix/declaration/cast/call/literal expressions, opcode map, type adaptation, argument index rewrite, compound-assignment rewrite and every relevant grammar action; (4) pipeline wiring; (5) whole-pipeline families E2E.scalar / E2E.grouping: ~45 curated scalar-core programs (every statement and operator form, arrays, structs, calls, recursion, globals), each compiled by the real compiler and run by the real VM on SYMBOLIC inputs against the reference interpreter refsem.py in the same path context -- each obligation holds for all inputs of its program. Grouping by precedence is C08, typing C09.",
     note="Trusted: CPython, pyvc (proxies, slicer, path explorer), z3, IRsem and the structured semantics written from the property text. Floats are reals (A2) -- IEEE rounding only by a bounded sampling family. The composition of the per-construct contracts into the whole-program statement (induction on the AST) is a paper argument. Prologue loops executed on enumerated block layouts.",
     technique="contract-based deductive verification: mechanical step slice of the interpreter loop + symbolic execution against IRsem (z3); CFG-schema simulation of the real lowering with opaque children (induction hypothesis as contract stub)",
     design="DESIGN.md section 4 (C01)")
 CLAIMED["C02"] = dict(
-    text="Proof of component contracts: Uses/ReplaceUses of every instruction class (reflection checks that every Instruction subclass is covered), Function/BasicBlock.UpdateUses over several blocks, Function.ReplaceUses, GetPreviousInstruction, allocation of references and typed constants, WithVariable, BasicBlock._Traverse with chains of 1-3 pending forwardings into users of every kind, soundness of the load-after-store visitor over all sequences store / 0-2 intervening instructions / load in one or two blocks, constant-cast folding equal to what the VM's CAST arm computes, and the optimisation gate of Compile (recording passes).",
-    note="Trusted: CPython, pyvc. Finite enumerations of instruction shapes and short sequences (exhaustive-finite). The step from per-pass simulation to whole-program equivalence is a paper argument; no whole-program differential run is part of the proof.",
+    text="Proof of component contracts: Uses/ReplaceUses of every instruction class (reflection checks that every Instruction subclass is covered), Function/BasicBlock.UpdateUses over several blocks, Function.ReplaceUses, GetPreviousInstruction, allocation of references and typed constants, WithVariable, BasicBlock._Traverse with chains of 1-3 pending forwardings into users of every kind, soundness of the load-after-store visitor over all sequences store / 0-2 intervening instructions / load in one or two blocks, constant-cast folding equal to what the VM's CAST arm computes, the optimisation gate of Compile (recording passes), and E2E.optimize: ~45 curated programs compiled WITH optimize and run on symbolic inputs against the reference semantics (all inputs per program).",
+    note="Trusted: CPython, pyvc. Finite enumerations of instruction shapes and short sequences (exhaustive-finite). The step from per-pass simulation to whole-program equivalence is a paper argument outside the curated E2E.optimize family.",
     technique="contract-based verification of the IR bookkeeping: per-class operand contracts, frame conditions on _Traverse, soundness contract of the forwarding visitor (exhaustive finite shapes)",
     design="DESIGN.md section 4 (C02)")
 CLAIMED["C03"] = dict(
     text="Proof of component contracts: the CALL arm of the sliced interpreter step with self._Invoke cut by its contract (fresh argument list in operand order, named callee, result bound, caller's args variable/list, value map and globals unchanged), Invoke/_Invoke/prologue (fresh value map per activation, positional arguments in parameter order), copy discipline of VECTOR_SET/MATRIX_SET, call lowering (arguments left to right, callee named exactly as its definition is registered, mangling injective), argument index rewrite; overload choice is C10.",
-    note="Trusted: CPython, pyvc, z3. Argument casts of nested calls (AddImplicitCasts does not descend into call arguments) are not under contract yet.",
+    note="Trusted: CPython, pyvc, z3. Argument casts: CASTS.visit (the cast pass reaches every expression; every argument ends at its parameter component type).",
     technique="contract-based deductive verification: step slice of the interpreter with modular cut of _Invoke; frame conditions via locals() capture",
     design="DESIGN.md section 4 (C03)")
 CLAIMED["C04"] = dict(
@@ -67,7 +67,7 @@ CLAIMED["C04"] = dict(
     design="DESIGN.md section 4 (C04)")
 CLAIMED["C05"] = dict(
     text="Proof of component contracts (safety view): every interpreter arm raises nothing on operands of the shape of their static type except the defined failures (division by zero checked explicitly), instance creation is total and shape-correct for every type shape, type adaptation is total and structure preserving, the IR bookkeeping leaves no dangling operand (C02/C14 obligations), the swizzle/bounds/index validators fence what the back end cannot handle (C13), every accepted operator/type combination of the spellable types lowers and runs (C09.e2e, C04.arith).",
-    note="Trusted: CPython, pyvc, z3. The preservation/progress induction over whole programs is a paper argument. Vector casts emitted for constructor arguments (float4(int2, ...)) reach a scalar-only CAST arm: not under contract yet. Known findings D20a-c.",
+    note="Trusted: CPython, pyvc, z3. The preservation/progress induction over whole programs is a paper argument. Known findings D20a-c.",
     technique="contract-based deductive verification: per-arm safety contracts on the sliced interpreter step; totality contracts on instance creation and type adaptation",
     design="DESIGN.md section 4 (C05)")
 CLAIMED["C14"] = dict(
